@@ -1436,6 +1436,9 @@ class Interp(object):
         raise Undecided('uncontracted call to %s' % what)
 
     def call_real_function(self, fn, args, kwargs):
+        w = self.registry.get('watch')
+        if w and id(fn) in w:
+            self.event('enter', w[id(fn)], tuple(args))
         node, qual, path = source.get_ast(fn)
         env = None
         if fn.__closure__:
@@ -2515,6 +2518,10 @@ class _ReplayColl(Native):
                 I.exec_block(self.loop_node.body, fr)
             except _Continue:
                 pass
+            except PyRaise:
+                # the loop that built the collection completed normally for
+                # every element, so a raising re-execution is not a real path
+                raise Infeasible()
             got = self.capture
         finally:
             self.capture = saved
